@@ -621,3 +621,125 @@ func c10ExitNeverDropped(p *load.Program, r *core.Report, a *Anchors) {
 		r.OK(rule, key, fn, p.Pos(push.Pos()), inst, "the refused edge kills the target / pushes regardless")
 	}
 }
+
+// c10StopSeesLateSpawns: N10 — node.Stop asks the processes it finds registered to terminate and
+// then waits for the process count to reach zero. A process registered after the walk passed (its
+// parent had not handled its own exit signal yet) would never be asked and Stop would wait for ever.
+// So (a) stop() raises a flag before the walk, and (b) spawn, AFTER it has registered the process,
+// reads that flag and on the set edge sends the exit signal to the new process itself. Either the
+// walk sees the process or spawn sees the flag.
+func c10StopSeesLateSpawns(p *load.Program, r *core.Report, a *Anchors) {
+	rule := "C10.N10 stop-reaches-processes-spawned-meanwhile"
+	r.Floor(rule, 2)
+	nodeT := a.NodeT.Obj().Name()
+	stop := p.Func("node", nodeT, "stop")
+	spawn := p.Func("node", nodeT, "spawn")
+	if stop == nil || spawn == nil {
+		r.Unk(rule, "C10.N10|anchors", "", "", "stop and spawn are found", "missing")
+		return
+	}
+	// the walk of the process table in stop
+	var walk ssa.Instruction
+	eachInstr(stop, func(in ssa.Instruction) {
+		c, ok := in.(*ssa.Call)
+		if !ok {
+			return
+		}
+		if m, okm := syncMapCall(c.Common()); okm && m == "Range" {
+			if _, path, okp := fieldPath(c.Common().Args[0]); okp && len(path) > 0 && path[len(path)-1] == "processes" {
+				walk = in
+			}
+		}
+	})
+	// flags: fields of the node stored with a constant in stop before the walk
+	flags := map[string]ssa.Instruction{}
+	if walk != nil {
+		eachInstr(stop, func(in ssa.Instruction) {
+			var addr ssa.Value
+			if c, ok := in.(*ssa.Call); ok && isAtomic(c.Common()) && strings.HasPrefix(staticCallee(c.Common()).Name(), "Store") {
+				addr = c.Common().Args[0]
+			} else if st, ok := in.(*ssa.Store); ok {
+				addr = st.Addr
+			}
+			if addr == nil {
+				return
+			}
+			if b, path, okp := fieldPath(addr); okp && len(path) == 1 && canon(b) == ssa.Value(stop.Params[0]) && instrDominates(in, walk) {
+				flags[path[0]] = in
+			}
+		})
+	}
+	key1 := "C10.N10|" + fname(stop) + "|flag-before-walk"
+	inst1 := "stop raises a flag before it walks the process table"
+	if walk == nil {
+		r.Unk(rule, key1, fname(stop), p.Pos(stop.Pos()), inst1, "no Range over the process table")
+		return
+	}
+	// spawn: after processes.Store a load of one of these flags whose set edge sends an exit to the new process
+	var reg ssa.Instruction
+	eachInstr(spawn, func(in ssa.Instruction) {
+		c, ok := in.(*ssa.Call)
+		if !ok {
+			return
+		}
+		if m, okm := syncMapCall(c.Common()); okm && m == "Store" {
+			if _, path, okp := fieldPath(c.Common().Args[0]); okp && len(path) > 0 && path[len(path)-1] == "processes" {
+				reg = in
+			}
+		}
+	})
+	key2 := "C10.N10|" + fname(spawn) + "|flag-after-registration"
+	inst2 := "spawn reads the stop flag after it has registered the process and asks the process to terminate when it is set"
+	if reg == nil {
+		r.Unk(rule, key2, fname(spawn), p.Pos(spawn.Pos()), inst2, "no processes.Store in spawn")
+		return
+	}
+	used := ""
+	eachInstr(spawn, func(in ssa.Instruction) {
+		var addr ssa.Value
+		var val ssa.Value
+		if c, ok := in.(*ssa.Call); ok && isAtomic(c.Common()) && strings.HasPrefix(staticCallee(c.Common()).Name(), "Load") {
+			addr, val = c.Common().Args[0], c
+		} else if u, ok := in.(*ssa.UnOp); ok && u.Op == token.MUL {
+			addr, val = u.X, u
+		}
+		if addr == nil {
+			return
+		}
+		_, path, okp := fieldPath(addr)
+		if !okp || len(path) != 1 || flags[path[0]] == nil || !instrDominates(reg, in) {
+			return
+		}
+		// some comparison of the loaded value whose one edge reaches an exit sent to the new process
+		if refs := val.Referrers(); refs != nil {
+			for _, x := range *refs {
+				b, ok := x.(*ssa.BinOp)
+				if !ok {
+					continue
+				}
+				t, fl, complete := boolEdges(b)
+				if !complete {
+					continue
+				}
+				for _, es := range [][]Edge{t, fl} {
+					if reaches(edgePoints(es), func(y ssa.Instruction) bool { return y == in }, func(y ssa.Instruction) bool {
+						return callsNamed(y, "RouteSendExit", "sendExitMessage", "Kill")
+					}) != nil {
+						used = path[0]
+					}
+				}
+			}
+		}
+	})
+	if used == "" {
+		if len(flags) == 0 {
+			r.Bad(rule, key1, fname(stop), p.Pos(walk.Pos()), inst1, "no field of the node is set before the walk: a process registered after the walk passed is never asked to terminate and Stop waits for it for ever")
+		} else {
+			r.OK(rule, key1, fname(stop), p.Pos(walk.Pos()), inst1, fmt.Sprintf("%d field(s) stored before the walk", len(flags)))
+		}
+		r.Bad(rule, key2, fname(spawn), p.Pos(reg.Pos()), inst2, "after processes.Store spawn consults no flag raised by stop: a process registered after stop's walk passed is never asked to terminate — node.Stop never returns")
+		return
+	}
+	r.OK(rule, key1, fname(stop), p.Pos(flags[used].Pos()), inst1, "field '"+used+"' is stored before the Range over the process table")
+	r.OK(rule, key2, fname(spawn), p.Pos(reg.Pos()), inst2, "field '"+used+"' is read after processes.Store; one edge of its test sends the exit signal")
+}
